@@ -15,9 +15,9 @@ var regressKnownTransparency = []Case{
 	// property description is taken from the raw property schema only
 	mkCase(map[string]string{rootFile: hdr31 + `"paths":{"/a":{"get":{"responses":{"200":{"description":"d","content":{"application/json":{"schema":{"type":"object","properties":{"p":{"$ref":"#/components/schemas/S"}}}}}}}}}},"components":{"schemas":{"S":{"type":"string","description":"text"}}}}`},
 		Site{File: rootFile, Path: []string{"paths", "/a", "get", "responses", "200", "content", "application/json", "schema", "properties", "p"}}),
-	// absolute-path reference to a parameter of the root document
-	mkCase(map[string]string{rootFile: hdr31 + `"paths":{"/a":{"get":{"parameters":[{"$ref":"/c07/root.json#/components/parameters/Q"}],"responses":{"200":{"description":"d"}}}}},"components":{"parameters":{"Q":{"name":"q","in":"query","schema":{"type":"string"}}}}}`},
-		Site{File: rootFile, Path: []string{"paths", "/a", "get", "parameters", "0"}}),
+	// absolute-path reference to a header of the root document
+	mkCase(map[string]string{rootFile: hdr31 + `"paths":{"/a":{"get":{"responses":{"200":{"description":"d","headers":{"X-A":{"$ref":"/c07/root.json#/components/headers/H"}}}}}}},"components":{"headers":{"H":{"schema":{"type":"string"}}}}}`},
+		Site{File: rootFile, Path: []string{"paths", "/a", "get", "responses", "200", "headers", "X-A"}}),
 	// a name with a literal percent sign in a definition file
 	mkCase(map[string]string{rootFile: hdr31 + `"paths":{"/a":{"get":{"parameters":[{"$ref":"f1.json#/defs/parameters/c%2541d"}],"responses":{"200":{"description":"d"}}}}}}`,
 		"/c07/f1.json": `{"defs":{"parameters":{"c%41d":{"name":"q","in":"query","schema":{"type":"string"}}}}}`},
@@ -38,10 +38,6 @@ var regressKnownTransparency = []Case{
 	mkCase(map[string]string{rootFile: hdr31 + `"paths":{"/a":{"post":{"requestBody":{"content":{"application/json":{"schema":{"$ref":"#/components/schemas/S"}}}},"responses":{"200":{"description":"d","content":{"application/json":{"schema":{"$ref":"f1.json#/components/schemas/S"}}}}}}}},"components":{"schemas":{"S":{"type":"object","properties":{"x":{"type":"string"}}}}}}`,
 		"/c07/f1.json": `{"components":{"schemas":{"S":{"type":"object","properties":{"y":{"type":"integer"}}}}}}`},
 		Site{File: rootFile, Path: []string{"paths", "/a", "post", "responses", "200", "content", "application/json", "schema"}}),
-	// required member whose type is a self-recursive schema; the struct of the
-	// request ("APostReq") is checked before "N"
-	mkCase(map[string]string{rootFile: hdr31 + `"paths":{"/a":{"post":{"requestBody":{"content":{"application/json":{"schema":{"type":"object","required":["x"],"properties":{"x":{"$ref":"#/components/schemas/N"}}}}}},"responses":{"200":{"description":"d"}}}}},"components":{"schemas":{"N":{"type":"object","properties":{"v":{"type":"string"},"next":{"$ref":"#/components/schemas/N"}}}}}}`},
-		Site{File: rootFile, Path: []string{"paths", "/a", "post", "requestBody", "content", "application/json", "schema", "properties", "x"}}),
 	// allOf over twice the same recursive schema (fatal stack overflow in the generator)
 	mkCase(map[string]string{rootFile: hdr31 + `"paths":{"/a":{"post":{"requestBody":{"content":{"application/json":{"schema":{"allOf":[{"$ref":"#/components/schemas/N"},{"$ref":"#/components/schemas/M"}]}}}},"responses":{"200":{"description":"d"}}}}},"components":{"schemas":{"N":{"type":"object","properties":{"kids":{"type":"array","items":{"$ref":"#/components/schemas/N"}}}},"M":{"allOf":[{"$ref":"#/components/schemas/N"},{"type":"object","properties":{"z":{"type":"string"}}}]}}}}`},
 		Site{File: rootFile, Path: []string{"components", "schemas", "M", "allOf", "0"}}),
@@ -60,6 +56,13 @@ var regressKnownCycles = []Case{
 	// cycle with one required and one optional member, entered at the optional side
 	cycleCase(map[string]string{rootFile: hdr31 + `"paths":{"/a":{"get":{"responses":{"200":{"description":"d","content":{"application/json":{"schema":{"$ref":"#/components/schemas/Sch1"}}}}}}}},"components":{"schemas":{"Sch1":{"type":"object","properties":{"f3":{"$ref":"#/components/schemas/A1b2"},"other":{"type":"integer"}}},"A1b2":{"type":"object","required":["f4"],"properties":{"f4":{"$ref":"#/components/schemas/Sch1"}}}}}}`},
 		Expect{Outcome: "ok", Kind: KSchema, Len: 2}, "schema-cycle:required-and-optional-members"),
+}
+
+func init() {
+	// a required member whose type is a self-recursive schema: the struct of the
+	// request ("APostReq") is checked before "N" has been made finite
+	regressKnownCycles = append(regressKnownCycles, cycleCase(map[string]string{rootFile: hdr31 + `"paths":{"/a":{"post":{"requestBody":{"content":{"application/json":{"schema":{"type":"object","required":["x"],"properties":{"x":{"$ref":"#/components/schemas/N"}}}}}},"responses":{"200":{"description":"d"}}}}},"components":{"schemas":{"N":{"type":"object","properties":{"v":{"type":"string"},"next":{"$ref":"#/components/schemas/N"}}}}}}`},
+		Expect{Outcome: "ok", Kind: KSchema, Len: 1}, "schema-cycle:required-and-optional-members"))
 }
 
 var regressKnownExpand = []Case{
